@@ -68,6 +68,7 @@ def c01(ctx):
     n = tiers(ctx, 20000, 400000)
     ctx.stream("rand-real", gen.rand_binary(rng, ops, n))
     ctx.stream("ties", gen.tie_products(rng, n // 8))
+    ctx.stream("word-boundary", gen.word_boundary_arith(rng, tiers(ctx, 3000, 50000)))
     # operator spellings (glue): every spelling must equal *_with_rm(sem.mode)
     lines = []
     for _ in range(tiers(ctx, 3000, 30000)):
@@ -104,6 +105,7 @@ def c02(ctx):
         fm = gen.SMALL_THOROUGH + gen.REAL + [(5, 4), (6, 20), (7, 70), (9, 33), (13, 300)]
     over = lambda tag: ("o" in tag) or ("m" in tag)
     ctx.stream("threshold", gen.overflow_lines(rng, fm, tiers(ctx, 6, 40)), nontrivial=over)
+    ctx.stream("scale-beyond-range", gen.scale_overflow_lines(rng, fm), nontrivial=over)
     # exhaustive small formats: all four operations (every result that overflows or is the largest finite)
     small = tiers(ctx, [(2, 2), (2, 3), (3, 3), (3, 4)], gen.SMALL_QUICK + [(4, 4)])
     ctx.stream("exh-small-arith", gen.exh_binary(["add", "sub", "mul", "div"], small, values=gen.finite_values), exhaustive=True, nontrivial=over)
@@ -175,6 +177,7 @@ def c06(ctx):
     small = tiers(ctx, gen.SMALL_QUICK, gen.SMALL_THOROUGH)
     ctx.stream("exh-small", gen.exh_cast(small), exhaustive=True)
     ctx.stream("rand-real", gen.rand_cast(rng, tiers(ctx, 30000, 500000)))
+    ctx.stream("underflow-boundary", gen.underflow_boundary_casts(rng, tiers(ctx, 8000, 100000)))
     # widening then narrowing is the identity (prog: lit, cast up, cast back; third register must equal the first)
     lines = []
     for _ in range(tiers(ctx, 3000, 50000)):
@@ -215,6 +218,7 @@ def c10(ctx):
     ctx.stream("trunc-round-exh", gen.exh_unary(["trunc", "round", "abs", "neg"], small, modes=["E", "Z", "P"]), exhaustive=True)
     ctx.stream("scale-exh", gen.scale_lines_exh(tiers(ctx, [(2, 2), (2, 3), (3, 3), (3, 4)], gen.SMALL_QUICK + [(4, 4)])), exhaustive=True)
     ctx.stream("scale-real", gen.scale_lines_real(rng, tiers(ctx, 20000, 300000)))
+    ctx.stream("scale-beyond-range", gen.scale_overflow_lines(rng, gen.SMALL_QUICK + gen.REAL))
     ctx.stream("trunc-round-real", gen.truncround_real(rng, tiers(ctx, 20000, 300000)))
     return done(ctx)
 
@@ -265,6 +269,7 @@ def c07(ctx):
         isnan = (b & 0x7ff0000000000000) == 0x7ff0000000000000 and (b & 0xfffffffffffff) != 0
         if len(parts) == 3 and not isnan and int(parts[1]) != b:
             ctx.fail("oracle", "load-store-f64", ln, im, str(b), "f64 load/store round trip")
+    ctx.stream("native-special-pairs", gen.nat_special_pairs(), spec_mode="native", exhaustive=True, nontrivial=lambda t: True, chunk_timeout=900)
     ctx.stream("native-ops", gen.nat_lines(rng, tiers(ctx, 8000, 150000)), spec_mode="native", nontrivial=lambda t: True, chunk_timeout=900)
     ctx.stream("native-f64-to-f32", ["nat64 tof32 %d 0" % p for p in gen.f64_patterns(rng, n)], spec_mode="native", nontrivial=lambda t: True)
     ctx.assumptions.append("that the host CPU implements IEEE-754 binary32/binary64 is validated by this run (native results are compared), not proved")
